@@ -201,3 +201,25 @@ def can_mknod():
     import shutil
     shutil.rmtree(d, ignore_errors=True)
     return ok
+
+
+def add_internal_links(rng, roots, n):
+    """Decorate already-built trees with symbolic links that point at directories and files INSIDE the trees
+    (relative and absolute targets, shallow links to deep directories, links across roots)."""
+    dirs, files = [], []
+    for r in roots:
+        for dp, ds, fs in os.walk(r):
+            dirs.append(dp)
+            files += [os.path.join(dp, f) for f in fs if not os.path.islink(os.path.join(dp, f))]
+    made = []
+    for i in range(n):
+        where = rng.choice(dirs)
+        target = rng.choice(dirs if rng.random() < 0.75 or not files else files)
+        name = rng.choice(["0lnk%d", "zlnk%d", "Lnk%d", ".lnk%d", "lnk %d"]) % i
+        lp = os.path.join(where, name)
+        if os.path.lexists(lp) or target == where:
+            continue
+        text = target if rng.random() < 0.4 else os.path.relpath(target, where)
+        os.symlink(text, lp)
+        made.append((lp, text))
+    return made
